@@ -114,7 +114,9 @@ def header_writer_table(ctx):
                 leaf, ops = C.chain(e, lambda n: C.self_attr(n) is not None, res)
                 table[tag] = (C.self_attr(leaf), ops, el)
             except C.Unknown:
-                table[tag] = (None, ["<complex>"], el)
+                # one value behind a wrapper that is not modelled: which field it is and what happens to it is not read off
+                flds = sorted({C.self_attr(x) for x in ast.walk(e) if C.self_attr(x)})
+                table[tag] = (flds[0] if len(flds) == 1 else None, ["<unmodelled>" if len(flds) == 1 else "<complex>"], el)
         else:
             table[tag] = (None, ["<complex>"], el)
     return table, odd, fn
